@@ -75,6 +75,35 @@ def explore(res, rng, n, exhaustive=None):
                     res.failures.append({'signature': f'C04:repeat-cut:{enc_list(p)}->{enc_list(q)}', 'clause': 'cut-independence',
                                          'api': 'astmRainflowRepeatHistoryCounting', 'input': p, 'scale': s, 'rotated': q,
                                          'impl_output': cyc.impl_line(base) + ' | ' + cyc.impl_line(o)})
+    # ---- changed globalConfig.atol (read at call time by every counter): closed histories on a 0.01 grid whose three tables
+    # agree at the default number of digits agree at any other number of digits
+    core.import_impl()
+    from ffpack import lcc
+    tab = lambda f, data: [round(float(a), 9) for r in f(list(data), aggregate=True) for a in r]
+    k = 0
+    for h, s in cases:
+        if k >= max(25, n // 30):
+            break
+        if s != 0 or len(h) < 3 or max(abs(v) for v in h) > 4096:
+            continue
+        hc = close_at_extreme(rng, h)
+        if len(set(hc)) < 3:
+            continue
+        k += 1
+        data = [v / 100.0 for v in hc]
+        fs = (lcc.astmRainflowCounting, lcc.astmRangePairCounting, lcc.astmRainflowRepeatHistoryCounting)
+        base = [tab(f, data) for f in fs]
+        if base[0] != base[1] or base[0] != base[2]:
+            continue
+        digits = (sum(hc) + k) % 2
+        with cyc.with_atol(digits):
+            got = [tab(f, data) for f in fs]
+        res.evaluations += 1
+        res.stat('config_atol_%d' % digits)
+        if got[0] != got[1] or got[0] != got[2]:
+            res.failures.append({'signature': f'C04:closed:config-atol:{enc_list(hc)}:{digits}',
+                                 'clause': 'closed history: rainflow / range-pair / repeating tables differ after globalConfig.atol = %d' % digits,
+                                 'input': hc, 'scale': 'x 0.01', 'atol_digits': digits, 'impl_output': [g[:8] for g in got]})
     for (kind, h, s, _), a in zip(meta, core.driver_batch(reqs)):
         if kind == 'stat-notie':
             res.stat('no_ties' if a == '1' else 'with_ties')
